@@ -29,40 +29,34 @@ func newNode() *Node {
 }
 
 func (n *Node) insert(topic format.Topic, msg []byte) (bool, error) {
-	topic, token := topic.Next()
-	if token == "" {
-		old := len(n.Buf) > 0
-		n.Buf = msg
-		return old, nil
-	}
-
+	// Next returns a nil remainder after the last level; an empty token is an
+	// empty topic level ("a//b", "/a", "a/"), not the end of the topic.
+	rest, token := topic.Next()
 	if n.Children == nil {
 		n.Children = make(map[string]*Node)
 	}
-
 	child, ok := n.Children[token]
 	if !ok {
 		child = newNode()
 		n.Children[token] = child
 	}
-
-	return child.insert(topic, msg)
+	if rest == nil {
+		old := len(child.Buf) > 0
+		child.Buf = msg
+		return old, nil
+	}
+	return child.insert(rest, msg)
 }
 
 func (n *Node) remove(topic format.Topic) error {
-	topic, token := topic.Next()
-	if token == "" {
-		n.Buf = nil
-		return nil
-	}
-	if n.Children == nil {
-		n.Children = make(map[string]*Node)
-	}
+	rest, token := topic.Next()
 	child, ok := n.Children[token]
 	if !ok {
 		return ErrTopicNotFound
 	}
-	if err := child.remove(topic); err != nil {
+	if rest == nil {
+		child.Buf = nil
+	} else if err := child.remove(rest); err != nil {
 		return err
 	}
 	if len(child.Children) == 0 && len(child.Buf) == 0 {
@@ -81,29 +75,34 @@ func (n *Node) count(counter int) int {
 	return counter
 }
 func (n *Node) match(topic format.Topic, msgs *[][]byte) error {
-	topic, token := topic.Next()
-	if token == "" {
-		if n.Buf != nil && len(n.Buf) > 0 {
-			*msgs = append(*msgs, n.Buf)
-		}
-		return nil
-	}
+	rest, token := topic.Next()
 	if token == MWC {
 		n.allRetained(msgs)
 	} else if token == SWC {
 		for _, child := range n.Children {
-			if err := child.match(topic, msgs); err != nil {
+			if err := child.matchNext(rest, msgs); err != nil {
 				return err
 			}
 		}
 	} else {
 		if child, ok := n.Children[token]; ok {
-			if err := child.match(topic, msgs); err != nil {
+			if err := child.matchNext(rest, msgs); err != nil {
 				return err
 			}
 		}
 	}
+	return nil
+}
 
+// matchNext is called on the node selected by one pattern level: rest is nil
+// when that level was the last one.
+func (n *Node) matchNext(rest format.Topic, msgs *[][]byte) error {
+	if rest != nil {
+		return n.match(rest, msgs)
+	}
+	if n.Buf != nil && len(n.Buf) > 0 {
+		*msgs = append(*msgs, n.Buf)
+	}
 	return nil
 }
 
